@@ -2,7 +2,7 @@
 (***************************************************************************)
 (* C20, algorithm level -- the byte arithmetic of internal/querylog/       *)
 (* qlogfile.go, transcribed statement by statement (line numbers refer to  *)
-(* that file at commit ecfd163), so that TLC can check that it REFINES the  *)
+(* that file at commit 64027df), so that TLC can check that it REFINES the  *)
 (* abstract reader                                                         *)
 (* QLogFile.tla wherever buffers and probe windows fall.                   *)
 (*                                                                         *)
@@ -12,7 +12,7 @@
 (* lines (`tss`).  Every line ends in '\n' -- that is how                  *)
 (* querylogfile.go writes them.  Size == ends[n] + 1.                      *)
 (*                                                                         *)
-(* State of a qLogFile (qlogfile.go:40-58):                                *)
+(* State of a qLogFile (qlogfile.go:41-59):                                *)
 (*   position     q.position  -- offset of the '\n' that terminates the    *)
 (*                               next line to return; 0 = nothing left     *)
 (*   bufferStart  q.bufferStart                                            *)
@@ -33,7 +33,7 @@
 EXTENDS Integers, Sequences, FiniteSets, TLC
 
 CONSTANTS MaxEntry, BufSize, DepthLimit,
-          EmptyGuard        \* TRUE: the code as it is (seekTS:129-134); FALSE: the
+          EmptyGuard        \* TRUE: the code as it is (seekTS:130-135); FALSE: the
                             \* code before commit ecfd163, kept as a negative control
 
 VARIABLES
@@ -80,7 +80,7 @@ WholeLine(a, b) ==
 
 Min(a, b) == IF a < b THEN a ELSE b
 
-\* ---------------------------------------------------- readNextLine:279-303
+\* ---------------------------------------------------- readNextLine:280-304
 \* Result of readNextLine(position) together with the buffer start it leaves:
 \* [bs, lineIdx, line] where line is the index of the returned line, or 0 if
 \* the returned string is not exactly one stored line (a fragment).
@@ -88,30 +88,30 @@ Min(a, b) == IF a < b THEN a ELSE b
 \* a whole backward read as a function of the file alone)
 ReadNextLineIn(pos, bn, b0) ==
     LET rel0   == pos - b0
-        reinit == bn \/ (rel0 < MaxEntry /\ b0 # 0)                             \* :281
-        bs     == IF reinit THEN (IF pos > BufSize THEN pos - BufSize ELSE 0)   \* initBuffer:308-311
+        reinit == bn \/ (rel0 < MaxEntry /\ b0 # 0)                             \* :282
+        bs     == IF reinit THEN (IF pos > BufSize THEN pos - BufSize ELSE 0)   \* initBuffer:309-312
                   ELSE b0
         \* the buffer holds bytes bs .. Min(bs + BufSize, Size) - 1
-        nl     == LastNLIn(bs, pos)                                             \* :292-297
-        lineIdx == IF nl = -1 THEN bs ELSE nl + 1                               \* :291, :300
+        nl     == LastNLIn(bs, pos)                                             \* :293-298
+        lineIdx == IF nl = -1 THEN bs ELSE nl + 1                               \* :292, :301
     IN [bs |-> bs, lineIdx |-> lineIdx, line |-> WholeLine(lineIdx, pos)]
 ReadNextLine(pos) == ReadNextLineIn(pos, bufNil, bufferStart)
 
-\* ---------------------------------------------------- readProbeLine:331-377
+\* ---------------------------------------------------- readProbeLine:332-378
 \* [ioerr, lineIdx, lineEnd (exclusive end of the returned string),
 \*  lineEndIdx (what seekTS continues from)]
 ReadProbeLine(p) ==
-    LET seekPos == IF p > MaxEntry THEN p - MaxEntry ELSE 0                     \* :334-340
-        winEnd  == Min(seekPos + 2 * MaxEntry, Size)                            \* :349-350 (bufferLen)
-        nl      == LastNLIn(seekPos, p)                                         \* :357-363
-        lineIdx == IF nl = -1 THEN seekPos ELSE nl + 1                          \* :376
-        nr      == FirstNLIn(p, winEnd)                                         \* :367-373
-        lineEnd == IF nr = -1 THEN winEnd ELSE nr                               \* :365, :369
-        lineEndIdx == IF nr = -1 THEN winEnd ELSE nr + 1                        \* :366, :370
-    IN [ioerr |-> (winEnd - seekPos <= 0),      \* Read at or past EOF returns io.EOF (:351)
+    LET seekPos == IF p > MaxEntry THEN p - MaxEntry ELSE 0                     \* :335-341
+        winEnd  == Min(seekPos + 2 * MaxEntry, Size)                            \* :350-351 (bufferLen)
+        nl      == LastNLIn(seekPos, p)                                         \* :358-364
+        lineIdx == IF nl = -1 THEN seekPos ELSE nl + 1                          \* :377
+        nr      == FirstNLIn(p, winEnd)                                         \* :368-374
+        lineEnd == IF nr = -1 THEN winEnd ELSE nr                               \* :366, :370
+        lineEndIdx == IF nr = -1 THEN winEnd ELSE nr + 1                        \* :367, :371
+    IN [ioerr |-> (winEnd - seekPos <= 0),      \* Read at or past EOF returns io.EOF (:352)
         lineIdx |-> lineIdx, lineEnd |-> lineEnd, lineEndIdx |-> lineEndIdx]
 
-\* readQLogTimestamp:399-419 on the bytes a..b-1.  A whole line yields its
+\* readQLogTimestamp:425-445 on the bytes a..b-1.  A whole line yields its
 \* timestamp.  A fragment yields 0 ("couldn't find timestamp") -- see the
 \* note on fragments at the end of the module.
 TimestampOf(a, b) == LET k == WholeLine(a, b) IN IF k = 0 THEN 0 ELSE tss[k]
@@ -124,46 +124,46 @@ NoReply == Reply("none", 0, "ok", 0)
 \* The file (ends, tss) is a parameter of a behaviour: no action mentions
 \* ends' or tss'; the enclosing module (QLogFileAlgMC, TraceQLogFileAlg) says
 \* how it is chosen and keeps it fixed.
-\* SeekStart:216-236
+\* SeekStart:217-237
 SeekStart ==
     /\ pc = "idle"
-    /\ bufNil' = TRUE                                                           \* :221
-    /\ position' = IF Size - 1 < 0 THEN 0 ELSE Size - 1                         \* :230-233
+    /\ bufNil' = TRUE                                                           \* :222
+    /\ position' = IF Size - 1 < 0 THEN 0 ELSE Size - 1                         \* :231-234
     /\ seeked' = TRUE
     /\ out' = Reply("start", 0, "ok", 0)
     /\ UNCHANGED <<bufferStart, pc, searchVars>>
 
-\* ReadNext:242-264
+\* ReadNext:243-265
 ReadNext ==
     /\ pc = "idle" /\ seeked
-    /\ IF position = 0                                                          \* :246
+    /\ IF position = 0                                                          \* :247
          THEN /\ out' = Reply("read", 0, "eof", 0)
               /\ UNCHANGED <<position, bufferStart, bufNil>>
          ELSE \E r \in {ReadNextLine(position)} :     \* (a LET, evaluated once: see Probe)
               /\ bufferStart' = r.bs
               /\ bufNil' = FALSE
-              /\ position' = IF r.lineIdx = 0 THEN 0 ELSE r.lineIdx - 1         \* :256-262
+              /\ position' = IF r.lineIdx = 0 THEN 0 ELSE r.lineIdx - 1         \* :257-263
               /\ out' = IF r.line = 0 THEN Reply("read", 0, "fragment", 0)
                         ELSE Reply("read", 0, "ok", r.line)
     /\ UNCHANGED <<pc, searchVars, seeked>>
 
-\* seekTS:106-146, up to the first iteration of the loop.  A file of 0 bytes
-\* has nothing to probe: the guard at :129-134 returns errTSTooEarly (depth 0,
+\* seekTS:107-147, up to the first iteration of the loop.  A file of 0 bytes
+\* has nothing to probe: the guard at :130-135 returns errTSTooEarly (depth 0,
 \* position untouched, buffer already dropped) -- the class that lets
 \* qLogReader go on to the older file (QLogFileProps!EmptyAsTooEarlyComposes).
 \* Without the guard (EmptyGuard = FALSE, the code before ecfd163) the loop
 \* is entered and its first Read fails: see the io-error branch of Probe.
 SeekTSBegin(t) ==
     /\ pc = "idle"
-    /\ bufNil' = TRUE                                                           \* :115
+    /\ bufNil' = TRUE                                                           \* :116
     /\ sTarget' = t
     /\ sDepth' = 0
-    /\ IF EmptyGuard /\ Size = 0                                                \* :129-134
+    /\ IF EmptyGuard /\ Size = 0                                                \* :130-135
          THEN /\ pc' = "idle"
               /\ out' = Reply("seek", t, "tooEarly", 0)
               /\ UNCHANGED <<position, bufferStart, seeked, sStart, sEnd, sProbe, sLast>>
-         ELSE /\ sStart' = 0 /\ sEnd' = Size /\ sProbe' = Size \div 2           \* :126-136
-              /\ sLast' = -1                                                    \* :144
+         ELSE /\ sStart' = 0 /\ sEnd' = Size /\ sProbe' = Size \div 2           \* :127-137
+              /\ sLast' = -1                                                    \* :145
               /\ pc' = "probe"
               /\ UNCHANGED <<position, bufferStart, seeked, out>>
 
@@ -173,7 +173,7 @@ SeekFails(e) ==
     /\ UNCHANGED seeked          \* only a seek that succeeds positions the reader
     /\ out' = Reply("seek", sTarget, e, 0)
     /\ UNCHANGED <<position, searchVars>>
-\* ... or with the position set (:206).
+\* ... or with the position set (:207).
 SeekLands(p) ==
     /\ pc' = "idle"
     /\ seeked' = TRUE
@@ -181,37 +181,37 @@ SeekLands(p) ==
     /\ out' = Reply("seek", sTarget, "ok", 0)
     /\ UNCHANGED searchVars
 
-\* One iteration of the loop seekTS:148-204.
+\* One iteration of the loop seekTS:149-205.
 Probe ==
     /\ pc = "probe"
     /\ UNCHANGED <<bufferStart, bufNil>>
     \* "LET r == .. ts == .. IN", written as quantification over singletons: TLC
     \* re-evaluates a LET definition at every use inside an action, and r is
     \* used a dozen times (measured: 3x faster trace validation).
-    /\ \E r \in {ReadProbeLine(sProbe)} :                                        \* :150
-       \E ts \in {TimestampOf(r.lineIdx, r.lineEnd)} :                          \* :165
-       \* :151-153.  readProbeLine's Read returns io.EOF only on a file of 0
+    /\ \E r \in {ReadProbeLine(sProbe)} :                                        \* :151
+       \E ts \in {TimestampOf(r.lineIdx, r.lineEnd)} :                          \* :166
+       \* :152-154.  readProbeLine's Read returns io.EOF only on a file of 0
        \* bytes, which the guard in SeekTSBegin keeps out of the loop; reachable
        \* only with EmptyGuard = FALSE, where seekTS passes the io.EOF on -- an
        \* error that is none of the three classes (finding C20:empty-file-seek-
        \* eof, fixed by ecfd163; QLogFileAlgMC.noguard.cfg must violate Refines).
        IF r.ioerr THEN SeekFails("ioerr")
-       \* validateQLogLineIdx:72-88
+       \* validateQLogLineIdx:73-89
        ELSE IF r.lineIdx = sLast /\ r.lineIdx = 0 THEN SeekFails("tooEarly")
        ELSE IF r.lineIdx = sLast THEN SeekFails("notFound")
        ELSE IF r.lineIdx = Size THEN SeekFails("tooLate")
-       ELSE IF ts = 0 THEN SeekFails("nots")                                    \* :166-173
-       ELSE IF ts = sTarget THEN SeekLands(r.lineEnd)                           \* :175-178, :206
-       ELSE LET start2 == IF ts > sTarget THEN sStart ELSE r.lineEndIdx         \* :181-191
+       ELSE IF ts = 0 THEN SeekFails("nots")                                    \* :167-174
+       ELSE IF ts = sTarget THEN SeekLands(r.lineEnd)                           \* :176-179, :207
+       ELSE LET start2 == IF ts > sTarget THEN sStart ELSE r.lineEndIdx         \* :182-192
                 end2   == IF ts > sTarget THEN r.lineIdx ELSE sEnd
-            IN IF sDepth + 1 >= DepthLimit                                      \* :194-203
+            IN IF sDepth + 1 >= DepthLimit                                      \* :195-204
                THEN /\ pc' = "idle" /\ UNCHANGED seeked                        \* returns the
                     /\ out' = Reply("seek", sTarget, "notFound", 0)            \* incremented depth
                     /\ sDepth' = sDepth + 1
                     /\ UNCHANGED <<position, sTarget, sStart, sEnd, sProbe, sLast>>
                ELSE /\ sStart' = start2 /\ sEnd' = end2
-                    /\ sProbe' = start2 + (end2 - start2) \div 2                \* :192
-                    /\ sLast' = r.lineIdx                                       \* :162
+                    /\ sProbe' = start2 + (end2 - start2) \div 2                \* :193
+                    /\ sLast' = r.lineIdx                                       \* :163
                     /\ sDepth' = sDepth + 1
                     /\ UNCHANGED <<pc, sTarget, position, seeked, out>>
 
@@ -220,7 +220,7 @@ Targets == IF NLines = 0 THEN {1} ELSE (tss[1] - 1)..(tss[NLines] + 1)
 
 Next == SeekStart \/ ReadNext \/ (\E t \in Targets : SeekTSBegin(t)) \/ Probe
 
-\* State right after newQLogFile (qlogfile.go:61-68): everything zero.
+\* State right after newQLogFile (qlogfile.go:62-69): everything zero.
 Opened == /\ position = 0 /\ bufferStart = 0 /\ bufNil = TRUE
           /\ pc = "idle" /\ seeked = FALSE /\ out = NoReply
           /\ sTarget = 0 /\ sStart = 0 /\ sEnd = 0 /\ sProbe = 0 /\ sLast = -1 /\ sDepth = 0
